@@ -5,6 +5,7 @@
 -/
 import RbModel.Lemmas.Digest
 import RbModel.Lemmas.GsubCoverage
+import RbModel.Gen.Digest
 
 namespace RbModel.Digest
 
@@ -406,6 +407,37 @@ theorem C10_skip_position_sound_found (shifts : List Nat) (covs : List Coverage)
   | some i =>
     have := C10_lookup_digest_sound_found shifts covs hwf c hc g i hf
     rw [this] at hskip; cases hskip
+
+/-! ## the digest discipline of `apply_layout_table` around a pause function
+
+    src: ot_layout.rs::apply_layout_table — `if func(plan, face, ctx.buffer) { ctx.digest = ctx.buffer.digest(); }`.
+    `d` is the context digest before the pause, `gids` / `gids'` the glyph ids of the buffer before / after it and
+    `changed` what the pause function returned.  The contract a pause function owes: when it answers `false` it has not
+    brought a new glyph id into the buffer (reordering is fine).  Under it the hypothesis `hinv` of
+    `C10_skip_lookup_sound` survives every stage; the monitor `digestmon` (hook `layout::digest_monitor`) checks that
+    very hypothesis on the crate after every stage. -/
+theorem C10_pause_keeps_digest_valid (shifts : List Nat) (d : Digest) (gids gids' : List Nat) (changed : Bool)
+    (hinv : ∀ x ∈ gids, Digest.mayHaveGlyph shifts d x = true)
+    (hcontract : changed = false → ∀ x ∈ gids', x ∈ gids) :
+    ∀ x ∈ gids', Digest.mayHaveGlyph shifts (if changed then bufferDigest shifts gids' else d) x = true := by
+  intro x hx
+  cases changed with
+  | true => simpa using C10_buffer_digest_sound shifts gids' x hx
+  | false => simpa using hinv x (hcontract rfl x hx)
+
+/-- non-vacuity of the hypotheses (an inserted glyph, reported) -/
+example : ∀ x ∈ [7, 3, 5], Digest.mayHaveGlyph [4, 0, 9]
+    (if true then bufferDigest [4, 0, 9] [7, 3, 5] else bufferDigest [4, 0, 9] [3, 5]) x = true :=
+  C10_pause_keeps_digest_valid [4, 0, 9] _ [3, 5] [7, 3, 5] true
+    (fun x hx => C10_buffer_digest_sound _ _ x hx) (by intro h; cases h)
+
+/-- The contract is needed: a pause function that inserts glyph 2 next to glyph 1 and answers `false` leaves a digest
+    that does not report the new glyph — and a lookup covering only glyph 2 is then skipped as a whole although the buffer
+    holds a glyph it covers (with the compiled crate's shifts). -/
+theorem C10_stale_digest_skips_covering_lookup :
+    Digest.mayHaveGlyph RbModel.Gen.Digest.shifts (bufferDigest RbModel.Gen.Digest.shifts [1]) 2 = false ∧
+    Digest.mayHave (lookupDigest RbModel.Gen.Digest.shifts [.glyphs [2]]) (bufferDigest RbModel.Gen.Digest.shifts [1]) = false ∧
+    (Coverage.glyphs [2]).covers 2 = true := by decide
 
 /-! ## non-vacuity -/
 -- an array that is not sorted: the search still finds 13 (at index 3) and 3 (at index 2), not 10 and 11
